@@ -471,34 +471,7 @@ PRE_SUBS_P = [(r"\bamount\b", "token_amount"), (r"MIN_SQRT_PRICE_X64", "MIN_SQRT
               (r"fail\(SqrtPriceOutOfBounds\)", "fail(SQRT_PRICE_LIMIT_OUT_OF_BOUNDS)"), (r"fail\((\w+)\)", lambda m: "fail(%s)" % (m.group(1) if m.group(1).isupper() or "_" in m.group(1) else _camel_to_snake(m)))]
 
 
-def _enum_arms(fn, facts, pred):
-    """(switch block, {variant name: target block}) of the `match` on a value satisfying pred."""
-    pv = prov_of(fn)
-    for bi, bb in enumerate(fn.blocks):
-        t = bb["t"]
-        if t["k"] != "switch":
-            continue
-        d = strip(pv.operand(t["d"], bi, len(bb["s"])))
-        if d[0] != "discr" or not pred(strip(d[1])):
-            continue
-        c = strip(d[1])
-        callee = facts.fn(c[1]) if c[0] == "call" else None
-        ty = (callee.sig["out"] if callee is not None else None)
-        adt = facts.adts.get(ty) if ty else None
-        if not adt:
-            return None
-        names = {str(v): n for n, v in adt.get("discrs", [])}
-        arms = {names.get(str(v), str(v)): b for v, b in t["ts"]}
-        rest = [n for n in names.values() if n not in arms]
-        if len(rest) == 1:
-            arms[rest[0]] = t["o"]
-        return bi, arms
-    return None
-
-
-def _arm_prov(fn, sw, target, ctx=None):
-    cut = {(sw, x) for x in fn.succ()[sw] if x != target}
-    return Prov(fn, preach.EdgeFlow(fn, cut, preach.flow(fn, ctx) if ctx else None))
+from rules.common import enum_arms as _enum_arms, arm_prov as _arm_prov  # noqa: E402
 
 
 def R3_loop(run):
